@@ -402,6 +402,8 @@ outer:
 							ci: md.CaptureInfo,
 							p:  newPacket,
 						}
+						// the transport layer is the one of the complete datagram, not of the last fragment
+						parsed = packet.Parsed()
 					}
 				case layers.LayerTypeIPv6:
 					// TODO: implement ipv6 reassembly (if needed, unsure)
